@@ -357,10 +357,12 @@ def b_poly(tier):
                                actual=outcome.describe(r1)[:200], functions=[f"Polynomial.__{opn}__"]))
         r1 = outcome.run(lambda: af / df)
         b.case(("truediv", repr(a.data), repr(d.data)))
+        r0 = outcome.run(lambda: divmod(af, df))
+        exact_div = r0[0] == "val" and not getattr(r0[1][1], "data", r0[1][1])
         if r1[0] == "val":
             okd = all(val(r1[1], t) * val(df, t) == val(af, t) for t in pts) and wf(r1[1])
         else:
-            okd = issubclass(r1[1], ValueError)
+            okd = issubclass(r1[1], ValueError) and not exact_div      # an exact division has a quotient
         if not okd:
             b.fail(Failure("polynomials", f"what=truediv p={a.data} d={d.data}", dict(kind="poly", op="truediv", p=repr(a.data), d=repr(d.data)), expected="(p/d)*d == p, or ValueError for an inexact division",
                            actual=(outcome.describe(r1) if r1[0] == "exc" else repr(getattr(r1[1], "data", r1[1])))[:200], functions=["Polynomial.__truediv__", "Polynomial.degree"]))
@@ -376,6 +378,18 @@ def b_poly(tier):
         if not ok:
             b.fail(Failure("polynomials", f"what=divmod p={a.data} d={d.data}", dict(kind="poly", op="divmod", p=repr(a.data), d=repr(d.data)),
                            expected="q*d + r == p, deg r < deg d", actual=outcome.describe(r)[:200], functions=["Polynomial.__divmod__"]))
+    # division of a polynomial by a plain integer: coefficient-wise quotient and remainder (values only: these results keep zero coefficients in their
+    # data, which the statement - homomorphic to their values - does not forbid)
+    for a in trees.thin(ints, 40, seed=8):
+        for c_ in (2, 3, -2):
+            r = outcome.run(lambda: (divmod(a, c_), a // c_, a % c_))
+            b.case(("divmod-scalar", repr(a.data), c_))
+            ok = r[0] == "val" and all(val(r[1][0][0], t) * c_ + val(r[1][0][1], t) == val(a, t) for t in pts) \
+                and all(val(r[1][1], t) == val(r[1][0][0], t) and val(r[1][2], t) == val(r[1][0][1], t) for t in pts) \
+                and all(0 <= cf * (1 if c_ > 0 else -1) < abs(c_) for _, cf in getattr(r[1][0][1], "data", ()))
+            if not ok:
+                b.fail(Failure("polynomials", f"what=divmod-by-number p={a.data} number={c_}", dict(kind="poly", op="divmod-scalar", p=repr(a.data), number=c_), expected="q*c + r == p, remainders in range",
+                               actual=outcome.describe(r)[:200], functions=["Polynomial.__divmod__"]))
     # quotient node of two integers
     for a_, b_ in itertools.product(range(-6, 7), repeat=2):
         if b_ == 0:
